@@ -1,7 +1,17 @@
 package main
 
-import "govc/vc"
+import (
+	"os"
+	"path/filepath"
+
+	"govc/vc"
+)
 
 func replayGo(eng *vc.Engine, r *oblResult) map[string]interface{} {
-	return map[string]interface{}{"attempted": false, "reproduced": false, "why": "replay not implemented for this function shape yet"}
+	scratch, err := os.MkdirTemp("", "vcheck-replay-")
+	if err != nil {
+		return map[string]interface{}{"attempted": false, "reproduced": false, "why": err.Error()}
+	}
+	defer os.RemoveAll(scratch)
+	return eng.Replay(r.O, r.Model, filepath.Join(scratch, "r"))
 }
